@@ -204,6 +204,27 @@ def _run_tool(tool, path, out, pooled=True):
         from amr_kitchen.colander import Colander
         Colander(plotfile=path, output=out, variables=["v"]).strain()
         return alpha.tree_digest(out)
+    if tool == "whip":
+        import sys
+        from amr_kitchen.whip import cli
+        old = sys.argv
+        sys.argv = ["whip", "-v", "w", "-o", out, "-y", path]
+        try:
+            cli.main()
+        finally:
+            sys.argv = old
+        return _digest(np.load(out + ".npy"))
+    if tool == "chef":
+        from amr_kitchen.chef import Chef
+        rec = os.path.join(core.VERIF, "harness", "recipes", "r_u1.py")
+        Chef(path, recipe=rec, outfile=out, serial=not pooled, kept_fields="v").cook()
+        return alpha.tree_digest(out)
+    if tool == "combine":
+        # the plotfile combined with ITSELF under two field selections (both typed the same way)
+        from amr_kitchen import PlotfileCooker
+        from amr_kitchen.combine import combine
+        combine(PlotfileCooker(path), PlotfileCooker(path), vars1=["u"], vars2=["w"], pltout=out)
+        return alpha.tree_digest(out)
     if tool == "pestle":
         from amr_kitchen import PlotfileCooker
         from amr_kitchen.pestle import volume_integral
